@@ -499,8 +499,8 @@ META = {
                      "FreshDeadline and Frame",
                      "Trace_Sugar.tla over expiry-heavy programs: all deadline commands and options, clock ticks around the "
                      "deadlines, runs of the background sampler (TraceSample: only keys of that database whose deadline has "
-                     "passed may disappear)",
-                     "DESIGN.md §5 C04",
+                     "passed may disappear), RANDOMKEY and TOUCH over keys that are past their deadline but still stored",
+                     "DESIGN.md §12.2 C04",
                      "The sampler is invoked by the driver (one evictKeysWithExpiredTTL call), its ticker is not running; "
                      "eviction policies other than noeviction are exercised under C08."),
     "C13": _seq_meta("ReadOnlyPure, ErrNoChange and Frame",
@@ -647,10 +647,13 @@ META = {
                  "eviction - recorded at the instrumentation point together with the memory figure before it and the contents of the "
                  "cache it was popped from at that moment - must satisfy the same clauses: figure at/above the limit, victim present "
                  "(and volatile under volatile-*), least-recently/least-frequently used entry of that cache, nothing under "
-                 "noeviction (where storing commands must be refused at/above the limit); afterwards the victim is in no cache, "
-                 "not in the volatile index and not in the dataset, every surviving key is unchanged, the figure equals MemOf of "
-                 "what is left, and the server is still answering.",
-        "design_ref": "DESIGN.md §5 C08",
+                 "noeviction (where storing commands must be refused at/above the limit); the cache a victim is picked from holds "
+                 "every key the policy may evict; consecutive evictions of one step each see the figure the previous one left "
+                 "(keys in one or two databases); afterwards the victim is in no cache, not in the volatile index and not in the "
+                 "dataset, every surviving key is unchanged, the volatile index and the volatile caches hold only keys with a "
+                 "deadline, usage is back under the limit after a storing command unless nothing evictable is left, the figure "
+                 "equals MemOf of what is left, and the server is still answering.",
+        "design_ref": "DESIGN.md §12.2 C08",
         "note": "Trusted: TLC, harness, verif points (they pass the cache object to the recorder at evict.pre). Open finding "
                 "LruEvictsNewest (order pinned by Test_CacheLRU).",
         "technique": "TLA+ eviction model checked with TLC + trace validation of recorded evictions against it",
@@ -703,9 +706,11 @@ META = {
                      "a sum over entries, and moves only by the entries a command changes)",
                      "Trace_Sugar.tla with CheckMem = TRUE over programs of all seven command families: after EVERY step the reported "
                      "figure must have moved by exactly the change of MemOf over the entries that step changed (overwrites, deletes, "
-                     "lazy expiry, sampler runs, flushes, renames), and every freshly loaded dataset must report exactly MemOf of it",
-                     "DESIGN.md §5 C19",
-                     "Eviction-driven changes are exercised under C08. Open finding MemInPlace covers in-place set/sorted-set edits."),
+                     "lazy expiry, sampler runs, flushes, renames), and every freshly loaded dataset must report exactly MemOf of it; "
+                     "Trace_Evict.tla over histories under a memory limit (noeviction, LFU and random policies): after every stored, "
+                     "refused or evicting write the figure equals MemOf of the recorded dataset",
+                     "DESIGN.md §12.2 C19",
+                     "Open finding MemInPlace covers in-place set/sorted-set edits."),
     "C20": _seq_meta("Isolation, FlushAllEmpties, FlushDbOnlyOwn",
                      "Trace_Sugar.tla over programs that switch the embedded caller between databases 0, 1 and 10 (SelectDB, SWAPDB) "
                      "with the state of all databases compared after every step; Trace_Conns.tla over histories of SELECT / SWAPDB / "
